@@ -325,7 +325,9 @@ func runC19(c *Ctx) {
 	c.Explanation = "Decides: (R-BUF-BOUND) 'Len never exceeds the buffer size' as an inductive invariant found by a one-variable abstract interpretation of δ = |buf| − cap over the go/ssa CFG of every Counter method: transfer functions for the mapset calls are derived on every run from mapset's own bodies (grows by ≤ k, shrinks, empties, reads length), guards on Len() vs cap refine δ, loops are iterated to a fixpoint with widening; the check looks for k ∈ {−1, 0} with δ ≤ k established by the constructor and preserved from entry to every exit of every method. (R-P-MONOTONE) p is only ever set to MaxUint64 (constructor, Reset) or shifted right, and Count is Len × 2^LeadingZeros(p), so the scale never decreases before Reset. (R-EXACT-REGIME) removals and halvings are control-dependent on p < MaxUint64 or Len ≥ cap, so below capacity the buffer is the exact set. Does NOT decide unbiasedness (a statement about a probability distribution) or the p = 0 corner after 64 passes."
 	c.rule("R-BUF-BOUND", 4, "some k in {-1,0}: constructor establishes |buf|-cap <= k and every method preserves it from entry to every exit")
 	c.rule("R-P-MONOTONE", 4, "every store to p is MaxUint64 or load(p) >> const; Count = Len × (1 << LeadingZeros64(p))")
-	c.rule("R-RESET-PAIR", 1, "outside the constructor, p := MaxUint64 is paired in-block with emptying the buffer")
+	c.rule("R-RESET-PAIR", 2, "outside the constructor, p := MaxUint64 is paired in-block with emptying the buffer")
+	c.rule("R-REROLL", 1, "every path through Add removes v from or adds v to the buffer (membership is re-decided on every occurrence)")
+	c.rule("R-HALVE-PAIR", 1, "every removal pass over the buffer is followed by a halving of p before the next pass or return")
 	c.rule("R-EXACT-REGIME", 2, "every removal and every halving in Add is control-dependent on p < MaxUint64 or Len >= cap")
 	c.assume("the constructor is called with size >= 1 (cap >= 1)")
 	c.assume("mapset.Set methods have the effects derived from their bodies (grow by at most the number of arguments, shrink, empty)")
@@ -503,6 +505,111 @@ func runC19(c *Ctx) {
 		c.judge(okC, "R-P-MONOTONE", "distinct.(*Counter).Count:formula", cnt.Pos(), "Count = Len × (1 << LeadingZeros64(p))", "Count is not Len times 2^LeadingZeros64(p)")
 	} else {
 		c.undecided("ANCHOR", "distinct.(*Counter).Count", 0, "not found")
+	}
+
+	// ---- converse of R-RESET-PAIR: emptying the buffer outside the constructor returns p to MaxUint64 in the same block
+	for _, fn := range methods {
+		allInstrs(fn, func(in ssa.Instruction) {
+			call, ok := in.(*ssa.Call)
+			if !ok {
+				return
+			}
+			cal := staticCallee(&call.Call)
+			if cal == nil || len(call.Call.Args) == 0 || !m.isBufRecv(call.Call.Args[0]) {
+				return
+			}
+			if e := classifySetMethod(cal); !e.empties {
+				return
+			}
+			reset := false
+			for _, in2 := range in.Block().Instrs {
+				if st, ok := in2.(*ssa.Store); ok {
+					if fa, ok := st.Addr.(*ssa.FieldAddr); ok {
+						if _, f := fieldVarOf(fa); sameField(f, m.pF) {
+							if cst, ok := st.Val.(*ssa.Const); ok && cst.Value != nil && constant.Compare(constant.ToInt(cst.Value), token.EQL, maxU) {
+								reset = true
+							}
+						}
+					}
+				}
+			}
+			c.judge(reset, "R-RESET-PAIR", fnName(fn)+":buffer emptied", call.Pos(), "p := MaxUint64 together with emptying the buffer", "the buffer is emptied but p keeps its down-sampled scale: after Reset the count of fewer than cap values is no longer exact")
+		})
+	}
+
+	// ---- R-REROLL / R-HALVE-PAIR: two structural necessary conditions of unbiasedness
+	if add := P.Func("distinct", "Counter", "Add"); add != nil && len(add.Params) == 2 {
+		v := add.Params[1]
+		touchesV := func(in ssa.Instruction) bool {
+			call, ok := in.(*ssa.Call)
+			if !ok {
+				return false
+			}
+			cal := staticCallee(&call.Call)
+			if cal == nil || len(call.Call.Args) < 2 || !m.isBufRecv(call.Call.Args[0]) {
+				return false
+			}
+			e := classifySetMethod(cal)
+			if !e.grows && !e.shrinks {
+				return false
+			}
+			// the variadic argument carries the parameter v
+			if sl, ok := call.Call.Args[len(call.Call.Args)-1].(*ssa.Slice); ok {
+				if al, ok := sl.X.(*ssa.Alloc); ok {
+					for _, r := range referrersOf(al) {
+						if ia, ok := r.(*ssa.IndexAddr); ok {
+							for _, r2 := range referrersOf(ia) {
+								if st, ok := r2.(*ssa.Store); ok && st.Val == ssa.Value(v) {
+									return true
+								}
+							}
+						}
+					}
+				}
+			}
+			return false
+		}
+		okR, wit := mustPassToExit(P, firstInstr(add), touchesV)
+		if touchesV(firstInstr(add)) {
+			okR = true
+		}
+		c.judge(okR, "R-REROLL", "distinct.(*Counter).Add:membership re-decided", add.Pos(), "every path either removes v from or adds v to the buffer", "Add can return without re-deciding v's membership ("+wit+"): a value already buffered skips its coin flip, which biases the estimate upward")
+		// each removal pass is followed by exactly one halving of p before the next pass or exit
+		var rng ssa.Instruction
+		var done *ssa.BasicBlock
+		allInstrs(add, func(in ssa.Instruction) {
+			if r, ok := in.(*ssa.Range); ok && m.isBufRecv(r.X) {
+				rng = in
+			}
+			if nx, ok := in.(*ssa.Next); ok {
+				if r, ok := nx.Iter.(*ssa.Range); ok && m.isBufRecv(r.X) {
+					// the block entered when iteration is exhausted
+					if iff, ok := nx.Block().Instrs[len(nx.Block().Instrs)-1].(*ssa.If); ok {
+						done = iff.Block().Succs[1]
+					}
+				}
+			}
+		})
+		if rng == nil || done == nil {
+			c.undecided("R-HALVE-PAIR", "distinct.(*Counter).Add:pass", add.Pos(), "the removal pass over the buffer was not recognised")
+		} else {
+			isShift := func(in ssa.Instruction) bool {
+				st, ok := in.(*ssa.Store)
+				if !ok {
+					return false
+				}
+				fa, ok := st.Addr.(*ssa.FieldAddr)
+				if !ok {
+					return false
+				}
+				_, f := fieldVarOf(fa)
+				return sameField(f, m.pF)
+			}
+			bad, wit := reachesWithout(P, done.Instrs[0], true, func(in ssa.Instruction) bool { return in == rng || isReturn(in) }, isShift)
+			c.judge(!bad, "R-HALVE-PAIR", "distinct.(*Counter).Add:pass", rng.Pos(), "every removal pass is followed by a halving of p before the next pass or return", "a removal pass over the buffer can be followed by another pass or by a return without halving p ("+wit+"): survivors of k passes are weighted as if they had survived fewer, biasing the estimate low")
+		}
+	} else {
+		c.undecided("ANCHOR", "distinct.(*Counter).Add", 0, "not found")
 	}
 
 	// ---- R-EXACT-REGIME
